@@ -110,11 +110,14 @@ prop("C05", "exploration",
      "W1r: base transfers plus retransmission histories (any part again before completion, after completion, after validation while held, after delivery, "
      "after a clean restart), faults, cleaning, optional 25 h waits; oracle: per (name, hash) at most one arrival (arrivals are consumed, so a second copy "
      "is a second arrival) and one log record; a delivered version polls as passed and all its parts are answered as received; "
-     "non-trivial = a part was retransmitted after its file was complete",
+     "non-trivial = a part was retransmitted after its file was complete. End to end (W1): the retransmissions a real sender produces after lost answers, "
+     "cuts, refused recovery requests, polling give-ups and restarts of either side (one version per name) never lead to a second arrival or log record",
      [dict(pkg="stagex", test="TestC05Stage", world="W1r", quick=1600, thorough=48000, per_proc=100, shrink_runs=200,
            required_classes=["dup-after-complete", "dup-after-delivery", "restart"]),
       dict(pkg="stagex", test="TestC05Ageing", world="W1r", quick=8, thorough=96, per_proc=2, shrink_runs=25,
-           required_classes=["cache-sweep-after-25h", "blind-duplicate", "asked-first"])],
+           required_classes=["cache-sweep-after-25h", "blind-duplicate", "asked-first"]),
+      dict(pkg="stagex", test="TestC05Sim", world="W1", quick=800, thorough=24000, per_proc=50, shrink_runs=150,
+           required_classes=["bytes-retransmitted", "sender-crash", "receiver-restart", "xfault-2"])],
      STAGE_ASSUME + ["content never reverts to an earlier version, so a second arrival of (name, hash) is always a duplicate delivery"])
 
 prop("C09", "exploration",
